@@ -22,6 +22,13 @@
                        out = "ok" | "fail" (binding sub-resource fails, rollback removes the labels) |
                        "faillabel" (multi-device pod: reserving the 2nd group fails after the 1st label was
                        written and the rollback fails too: the label stays)
+                       "panic" (binder.Bind panics in the call of the binding sub-resource: the deferred recover of
+                       Reconcile turns the panic into a failed attempt, NO rollback runs (the labels of a
+                       fraction pod stay) and Reconcile always returns an error: the key is re-queued)
+     SchedCycleRefused a scheduler cycle in which the API server refuses the DELETE of stale BindRequests
+                       (p = the pod whose stale request is refused, "" = every stale request): Snapshot returns
+                       the error of cleanStaleBindRequest, OpenSession fails, the cycle ends there (scheduler.go:
+                       "will try again next cycle"): the other stale requests are deleted, nothing is allocated
      BinderCrashAfterLabel  the binder dies right after one label patch (nothing else reaches the store); restart
      BindDoneStatusLost the `binding` sub-resource succeeded but the BindRequest status patch was lost
      BinderRestart     binder process restart: every existing BindRequest is re-queued
@@ -46,6 +53,8 @@ CONSTANTS Pods,          \* set of pod names (strings)
           MaxSlot,
           MaxAtt,        \* saturation of the ghost counters
           MaxRestarts, MaxFlips, MaxLeaks,
+          MaxRefusals,   \* bound of the cycles with refused DELETEs
+          MaxPanics,     \* bound of the panicking bind attempts
           MaxLevel       \* bound of the breadth-first level for the (optional) CONSTRAINT DepthBound
 
 VARIABLES S,     \* the abstract state (record, see InitState)
@@ -125,13 +134,19 @@ Place(s, p) == IF IsFrac(s, p) THEN {Placed(s, p, D) : D \in FracPlacements(s, p
 RECURSIVE Alloc(_, _)
 Alloc(s, P) == IF P = {} THEN {s}
                ELSE UNION {IF Place(s, p) = {} THEN Alloc(s, P \ {p}) ELSE UNION {Alloc(t, P \ {p}) : t \in Place(s, p)} : p \in P}
-Cleaned(s) ==
-  [s EXCEPT !.br = [p \in Pods |-> IF p \in Stale(s) THEN NoBr(s.br[p].gen) ELSE s.br[p]],
-            !.dev = [p \in Pods |-> IF p \in Stale(s) THEN {} ELSE s.dev[p]],
-            !.q = [p \in Pods |-> IF p \in Stale(s) THEN FALSE ELSE s.q[p]],
-            !.att = [p \in Pods |-> IF p \in Stale(s) THEN 0 ELSE s.att[p]],
-            !.fl = [p \in Pods |-> IF p \in Stale(s) THEN 0 ELSE s.fl[p]]]
+CleanedSet(s, T) ==
+  [s EXCEPT !.br = [p \in Pods |-> IF p \in T THEN NoBr(s.br[p].gen) ELSE s.br[p]],
+            !.dev = [p \in Pods |-> IF p \in T THEN {} ELSE s.dev[p]],
+            !.q = [p \in Pods |-> IF p \in T THEN FALSE ELSE s.q[p]],
+            !.att = [p \in Pods |-> IF p \in T THEN 0 ELSE s.att[p]],
+            !.fl = [p \in Pods |-> IF p \in T THEN 0 ELSE s.fl[p]]]
+Cleaned(s) == CleanedSet(s, Stale(s))
 CyclePosts(s) == IF ~s.up THEN {Cleaned(s)} ELSE Alloc(Cleaned(s), PendingSet(s))
+\* the cycle in which the API server refuses the DELETE of the stale requests R: cleanStaleBindRequest issues every
+\* DELETE (goroutines), the ones that are not refused go through; its error fails Snapshot/OpenSession: no allocation
+RefusedSet(s, p) == IF p = "" THEN Stale(s) ELSE {p} \cap Stale(s)
+RefusedEnabled(s, p) == RefusedSet(s, p) # {}
+RefusedPost(s, p) == [CleanedSet(s, Stale(s) \ RefusedSet(s, p)) EXCEPT !.refusals = s.refusals + 1]
 
 (* ---- one reconcile of the BindRequest of p; `out` = the injected fault ---------------------------------- *)
 Reach(s, p) == s.br[p].ex /\ s.br[p].ph # "Succeeded" /\ s.alive[p] /\ ~s.bound[p] /\ s.up
@@ -145,6 +160,7 @@ BinderRuns(s, p, out, rule) ==
     LET reach == Reach(s, p)
         leak == reach /\ out = "faillabel" /\ IsFrac(s, p) /\ s.nd[p] = 2
         bindCalled == reach /\ ~leak
+        panic == bindCalled /\ out = "panic"       \* raised inside the call of the binding sub-resource
         errc == IF ~s.alive[p] THEN TRUE          \* Get pod: NotFound
                 ELSE IF s.bound[p] THEN FALSE     \* pod already bound: success without binding
                 ELSE IF ~s.up THEN TRUE           \* Get node: NotFound
@@ -157,17 +173,23 @@ BinderRuns(s, p, out, rule) ==
         bN == IF changed THEN [b EXCEPT !.ph = phN, !.fa = faN] ELSE b
         labs == IF ~reach \/ ~IsFrac(s, p) THEN {s.lab[p]}
                 ELSE IF leak THEN {Labelled(s, p, d) : d \in s.dev[p]}     \* one label written, rollback failed
-                ELSE IF errc THEN {{}}                                      \* rollback removed the group labels
-                ELSE {s.dev[p]}                                             \* every selected group labelled, then bound
+                ELSE IF errc /\ ~panic THEN {{}}                            \* rollback removed the group labels
+                ELSE {s.dev[p]}                  \* every selected group labelled, then bound | bind panicked: no rollback
     IN {[post |-> [s EXCEPT !.br[p] = bN,
                             !.lab[p] = L,
                             !.leaks = IF leak THEN s.leaks + 1 ELSE s.leaks,
+                            !.panics = IF panic THEN s.panics + 1 ELSE s.panics,
                             !.bound[p] = s.bound[p] \/ (bindCalled /\ ~errc),
                             !.att[p] = IF bindCalled THEN Sat(s.att[p] + 1) ELSE s.att[p],
                             !.fl[p] = IF errc THEN Sat(s.fl[p] + 1) ELSE s.fl[p],
-                            !.q[p] = changed \/ inc],        \* update event | returned error | RequeueAfter
-         err |-> changed /\ errc, rq |-> IF inc THEN Pow2(b.fa) ELSE 0, bind |-> bindCalled] : L \in labs}
+                            !.q[p] = changed \/ inc \/ panic],   \* update event | returned error | RequeueAfter
+         \* UpdateStatus swallows the error when it patches nothing; the error of a recovered panic is always returned
+         err |-> (changed /\ errc) \/ panic, rq |-> IF inc THEN Pow2(b.fa) ELSE 0, bind |-> bindCalled] : L \in labs}
 
+\* The model (and the schedule generators) let Bind panic only while the request is not terminally failed: a panic on
+\* a terminally failed request returns an error again (re-queue), the harness can replay such a step (EnabledIn of
+\* HandoffTrace only asks for Reach) but it is outside the environment the C12 bounds are stated for.
+PanicEnabled(s, p) == Reach(s, p) /\ ~Terminal(s.br[p], s.lim)
 StatusLostEnabled(s, p) == s.q[p] /\ Reach(s, p)
 StatusLostPost(s, p) == [s EXCEPT !.bound[p] = TRUE, !.att[p] = Sat(s.att[p] + 1), !.q[p] = FALSE,
                                   !.lab[p] = IF IsFrac(s, p) THEN s.dev[p] ELSE s.lab[p]]
@@ -181,7 +203,7 @@ DrainPost(s) == [RestartPost(s) EXCEPT !.drain = TRUE]
 (* ---- the model -------------------------------------------------------------------------------------------- *)
 InitState(L, sh, present, persist) ==
   [lim |-> L, gpus |-> sh.gpus, req |-> sh.req, nd |-> sh.nd, persist |-> persist, drain |-> FALSE,
-   up |-> TRUE, flips |-> 0, restarts |-> 0, leaks |-> 0,
+   up |-> TRUE, flips |-> 0, restarts |-> 0, leaks |-> 0, refusals |-> 0, panics |-> 0,
    alive |-> [p \in Pods |-> p \in present], bound |-> [p \in Pods |-> FALSE],
    br |-> [p \in Pods |-> NoBr(0)], dev |-> [p \in Pods |-> {}], lab |-> [p \in Pods |-> {}],
    q |-> [p \in Pods |-> FALSE], att |-> [p \in Pods |-> 0], fl |-> [p \in Pods |-> 0]]
@@ -195,6 +217,13 @@ SchedCycle ==
   /\ obs' = [k |-> "cycle", pre |-> S, snap |-> SnapOf(S)]
   /\ act' = NoAct("SchedCycle", "", "")
 
+\* p = "" (every stale request refused) is only a label of its own when there are at least two stale requests
+SchedCycleRefused(p) ==
+  /\ ~S.drain /\ S.refusals < MaxRefusals /\ RefusedEnabled(S, p)
+  /\ p = "" => Cardinality(Stale(S)) >= 2
+  /\ S' = RefusedPost(S, p)
+  /\ obs' = NoObs /\ act' = NoAct("SchedCycleRefused", p, "")
+
 BinderAttempt(p, out) ==
   /\ S.q[p]
   /\ S.persist => out # "ok"
@@ -202,6 +231,8 @@ BinderAttempt(p, out) ==
   \* canonical label: `out` only matters when the binder gets as far as reserving/binding
   /\ ~Reach(S, p) => out = (IF S.persist THEN "fail" ELSE "ok")
   /\ out = "faillabel" => Reach(S, p) /\ IsFrac(S, p) /\ S.nd[p] = 2 /\ S.leaks < MaxLeaks
+  \* environment: Bind panics only on a request that is not yet terminally failed (see PanicEnabled)
+  /\ out = "panic" => PanicEnabled(S, p) /\ S.panics < MaxPanics
   /\ \E r \in BinderRuns(S, p, out, PatchRule) : S' = r.post
   /\ obs' = NoObs /\ act' = NoAct("BinderAttempt", p, out)
 
@@ -245,9 +276,9 @@ StartDrain ==
   /\ S' = DrainPost(S)
   /\ obs' = NoObs /\ act' = NoAct("StartDrain", "", "")
 
-BinderStep(p) == \E out \in {"ok", "fail", "faillabel"} : BinderAttempt(p, out)
-Next == \/ SchedCycle \/ BinderRestart \/ NodeDeleted \/ NodeAdded \/ StartDrain
-        \/ \E p \in Pods : BinderStep(p) \/ BindDoneStatusLost(p) \/ BinderCrashAfterLabel(p) \/ PodDeleted(p) \/ GcBr(p)
+BinderStep(p) == \E out \in {"ok", "fail", "faillabel", "panic"} : BinderAttempt(p, out)
+Next == \/ SchedCycle \/ SchedCycleRefused("") \/ BinderRestart \/ NodeDeleted \/ NodeAdded \/ StartDrain
+        \/ \E p \in Pods : SchedCycleRefused(p) \/ BinderStep(p) \/ BindDoneStatusLost(p) \/ BinderCrashAfterLabel(p) \/ PodDeleted(p) \/ GcBr(p)
 
 Spec == Init /\ [][Next]_vars
 FairSpec == Spec /\ WF_vars(SchedCycle) /\ \A p \in Pods : WF_vars(BinderStep(p)) /\ WF_vars(GcBr(p))
@@ -258,6 +289,7 @@ TypeOK ==
   /\ S.lim \in Limits /\ [gpus |-> S.gpus, req |-> S.req, nd |-> S.nd] \in ShapeSet
   /\ S.persist \in BOOLEAN /\ S.drain \in BOOLEAN /\ S.up \in BOOLEAN
   /\ S.flips \in 0..MaxFlips /\ S.restarts \in 0..(MaxRestarts + 1) /\ S.leaks \in 0..MaxLeaks
+  /\ S.refusals \in 0..MaxRefusals /\ S.panics \in 0..MaxPanics
   /\ S.alive \in [Pods -> BOOLEAN] /\ S.bound \in [Pods -> BOOLEAN] /\ S.q \in [Pods -> BOOLEAN]
   /\ S.br \in [Pods -> BrType]
   /\ S.dev \in [Pods -> SUBSET Slots] /\ S.lab \in [Pods -> SUBSET Slots]
